@@ -1,4 +1,5 @@
 mod bdd_rec;
+mod tables;
 mod util;
 
 fn main() {
@@ -7,6 +8,10 @@ fn main() {
     util::quiet_panics();
     match (argv.get(1).map(|s| s.as_str()), argv.get(2).map(|s| s.as_str())) {
         (Some("record"), Some("bdd")) => bdd_rec::record(&args),
+        (Some("record"), Some("table")) => tables::record_table(&args),
+        (Some("replay"), Some("table")) => tables::replay_table(&args),
+        (Some("record"), Some("lru")) => tables::record_lru(&args),
+        (Some("replay"), Some("lru")) => tables::replay_lru(&args),
         _ => {
             eprintln!("usage: rv record <family> [--seed S --segments K --len L --nmax N --mode M --out FILE]");
             std::process::exit(2);
